@@ -116,7 +116,9 @@ def coq_eval_lists(ctx, name, header, body_defs, call):
         f.write(header)
         f.write(body_defs)
         f.write("Definition M := Eval vm_compute in %s.\nPrint M.\n" % call)
-    rc, out = C.coq_run(p, timeout=1800)
+    rc, out = C.coq_run(p, timeout=3600)
+    if rc == 124:                       # overloaded machine: one retry
+        rc, out = C.coq_run(p, timeout=7200)
     m = re.search(r"M\s*=\s*(\[[^\]]*\])", out.replace("\n", " "))
     if rc != 0 or not m:
         return None, out[-1200:]
@@ -418,7 +420,7 @@ def programs(ctx):
                 if si == 1:
                     keep = keep[:3] if quick else keep
                 rows += keep + r.sample(rs, min(budget, len(rs)))
-            per = max(1, (120000 if quick else 200000) // max(1, len(grid)))
+            per = max(1, ((120000 if quick else 200000) // (3 if X.BITS[k] == 64 else 1)) // max(1, len(grid)))
             for s in range(0, len(rows), per):
                 work.append((k, si, exprs, grid, rows[s:s + per]))
         for e in pr["sections"][0][0][:3]:
